@@ -69,6 +69,110 @@ fn entry_kind(e: u8) -> &'static str {
 }
 
 // ---------------------------------------------------------------------------------------------
+// C13 twin histories: a refused rollback_before() in the middle of a commit history must not change
+// the outcome of any later operation. The same seeded history is executed twice, with and without
+// the refused request; everything observable afterwards must be identical.
+
+type Obs = (Result<(), String>, Vec<Option<u64>>, Vec<usize>, u64);
+
+fn observe(v: &dyn Vut<u64>, r: Result<(), String>) -> Result<Obs, String> {
+    Ok((r, contents(v)?, v.holes(), v.stamp()))
+}
+
+fn c13_twin_once(case: &Value, fmt: &str, with_refused: bool, dir: &Path, stats: &mut Stats) -> RunResult<Vec<Obs>> {
+    let viol = |clause: &str, detail: String| Fail::Violation(Violation::new("C13", format!("{clause}/{fmt}/twin"), format!("[{fmt}] {detail}")));
+    let rs = case["run_seed"].as_u64().unwrap_or(1);
+    let mut rng = Rng::stream(rs, 0xC13);
+    let raw = RAW_FORMATS.contains(&fmt);
+    let db = Database::open(dir).map_err(|e| Fail::Harness(format!("open: {e}")))?;
+    let mut v = make::<u64>(fmt, "x");
+    v.open(&db, 0, 1, 10).map_err(|e| Fail::Harness(format!("import: {e}")))?;
+    let herr = |what: &str, e: String| Fail::Harness(format!("{what}: {e}"));
+    // committed history: stamps 1 and 2 with records, stamp 3 without one
+    for x in vals(rs, *rng.pick(&[1usize, 5, 100, 2049])) {
+        v.push(x);
+    }
+    v.commit(1).map_err(|e| herr("commit 1", e.to_string()))?;
+    let edit = |v: &mut Box<dyn Vut<u64>>, rng: &mut Rng, tag: u64| {
+        for x in vals(tag, rng.range(0, 3)) {
+            v.push(x);
+        }
+        if raw && v.len() > 0 && rng.chance(1, 2) {
+            let i = rng.below(v.len());
+            let _ = v.update(i, tag | 1);
+        }
+        if raw && v.len() > 1 && rng.chance(1, 3) {
+            let i = rng.below(v.len());
+            let _ = v.delete(i);
+        }
+        if rng.chance(1, 4) && v.len() > 2 {
+            let to = v.len() - 1 - rng.below(2);
+            let _ = v.truncate(to);
+        }
+    };
+    edit(&mut v, &mut rng, rs ^ 0x11);
+    v.commit(2).map_err(|e| herr("commit 2", e.to_string()))?;
+    if rng.chance(1, 2) {
+        edit(&mut v, &mut rng, rs ^ 0x22);
+    }
+    v.stamped_write(3).map_err(|e| herr("stamped_write 3", e.to_string()))?;
+    // pending, uncommitted edits
+    edit(&mut v, &mut rng, rs ^ 0x33);
+    v.push(rs | 1);
+    let target = rng.range(1, 3) as u64;
+    let mut obs = Vec::new();
+    if with_refused {
+        let before = observe(&*v, Ok(())).map_err(|e| viol("read-failed", e))?;
+        match catch(|| v.rollback_before(target)) {
+            Err(p) => return Err(viol("refused-op-panicked", format!("rollback_before({target}) with no record for the current stamp panicked: {p}"))),
+            Ok(Ok(s)) => return Err(viol("refused-op-accepted", format!("rollback_before({target}) succeeded (stamp {s}) although the current stamp 3 has no change record"))),
+            Ok(Err(_)) => {}
+        }
+        let after = observe(&*v, Ok(())).map_err(|e| viol("read-failed", e))?;
+        if before != after {
+            return Err(viol("refused-op-changed-state", format!("contents / deleted slots / stamp differ right after the refused rollback_before({target})")));
+        }
+        stats.bump("refused.rollback_before_without_record");
+    }
+    // continuation: commit the pending edits, undo, undo again, edit + commit + undo
+    let r = v.commit(4).map_err(|e| e.to_string());
+    obs.push(observe(&*v, r).map_err(|e| viol("read-failed", e))?);
+    let r = v.rollback().map_err(|e| e.to_string());
+    obs.push(observe(&*v, r).map_err(|e| viol("read-failed", e))?);
+    if rng.chance(1, 2) {
+        edit(&mut v, &mut rng, rs ^ 0x44);
+        let r = v.commit(5).map_err(|e| e.to_string());
+        obs.push(observe(&*v, r).map_err(|e| viol("read-failed", e))?);
+        let r = v.rollback().map_err(|e| e.to_string());
+        obs.push(observe(&*v, r).map_err(|e| viol("read-failed", e))?);
+    }
+    v.close();
+    drop(db);
+    Ok(obs)
+}
+
+pub fn run_c13_twin(case: &Value, stats: &mut Stats) -> RunResult<()> {
+    let fmt = case["fmt"].as_str().unwrap_or("bytes").to_string();
+    let scratch = Scratch::new("c13twin");
+    HUB.reset();
+    let with = c13_twin_once(case, &fmt, true, &scratch.sub("a"), stats)?;
+    let without = c13_twin_once(case, &fmt, false, &scratch.sub("b"), stats)?;
+    HUB.reset();
+    for (i, (a, b)) in with.iter().zip(&without).enumerate() {
+        if a != b {
+            let what = if a.0 != b.0 { "result" } else if a.3 != b.3 { "stamp" } else if a.2 != b.2 { "deleted slots" } else { "contents" };
+            return Err(Fail::Violation(Violation::new(
+                "C13",
+                format!("refused-op-changed-later-outcome/{fmt}/twin"),
+                format!("[{fmt}] the {what} after continuation step {i} (0 commit, 1 rollback, 2 commit, 3 rollback) differ between the history with the refused rollback_before and the same history without it: {:?} stamp {} len {} vs {:?} stamp {} len {}", a.0, a.3, a.1.len(), b.0, b.3, b.1.len()),
+            )));
+        }
+    }
+    stats.bump("probe.twin_history_compared");
+    Ok(())
+}
+
+// ---------------------------------------------------------------------------------------------
 // C14
 
 fn c14_cell(case: &Value, stats: &mut Stats) -> RunResult<()> {
